@@ -3,7 +3,7 @@
 # Confirms, in a fresh scratch worktree of /repo, that (a) the patch applies, (b) the library still builds and the
 # existing suite passes with it, (c) the demonstration fails with the patch and (d) passes without it.
 sd="$(realpath "$1")"; demo="$2"; shift 2
-. /verif/scripts/goenv.sh
+. "$(cd "$(dirname "$0")" && pwd)/goenv.sh"
 wt=/tmp/seedverify.$$
 git -C /repo worktree add -q --detach "$wt" HEAD || exit 2
 trap 'git -C /repo worktree remove --force "$wt" >/dev/null 2>&1' EXIT
